@@ -1731,18 +1731,23 @@ def generate(repo, outdir):
         if cname == "SIZE" and tyname.startswith("Size"):
             ctx.sizes[tyname] = d.value
     parsed = []
+    missing = {}
     for tg in TARGETS:
         if tg.file not in srcs:
             srcs[tg.file] = open(os.path.join(repo, tg.file)).read()
-        params, ret, body = find_fn(srcs[tg.file], tg.impl, tg.fn)
-        ps, mut_self = parse_params(params, tg.owner)
-        assoc = {}
-        if tg.impl and " for " in tg.impl:
-            # associated types of operator / iterator traits as declared in the impl
-            for (s, e) in find_impl_bodies(strip_comments(srcs[tg.file]), tg.impl):
-                for m in re.finditer(r"type\s+(\w+)\s*=\s*([^;]+);", srcs[tg.file][s:e]):
-                    assoc[m.group(1)] = conv_ty(P(tokenize(m.group(2))).ty(), tg.owner)
-        rty = conv_ty(P(tokenize(ret)).ty(), tg.owner, assoc) if ret else Ty("unit")
+        try:
+            params, ret, body = find_fn(srcs[tg.file], tg.impl, tg.fn)
+            ps, mut_self = parse_params(params, tg.owner)
+            assoc = {}
+            if tg.impl and " for " in tg.impl:
+                # associated types of operator / iterator traits as declared in the impl
+                for (s, e) in find_impl_bodies(strip_comments(srcs[tg.file]), tg.impl):
+                    for m in re.finditer(r"type\s+(\w+)\s*=\s*([^;]+);", srcs[tg.file][s:e]):
+                        assoc[m.group(1)] = conv_ty(P(tokenize(m.group(2))).ty(), tg.owner)
+            rty = conv_ty(P(tokenize(ret)).ty(), tg.owner, assoc) if ret else Ty("unit")
+        except (ValueError, KeyError, IndexError) as exn:
+            missing[tg.lean] = f"{tg.file}: {tg.impl or ''} fn {tg.fn}: {exn}"
+            continue
         tg.mut_self = mut_self
         full = Ty("tuple", [rty, nominal(tg.owner)]) if mut_self else rty
         ctx.sigs[tg.lean] = ([t for _, t in ps], full)
@@ -1763,6 +1768,7 @@ def generate(repo, outdir):
              "A type parameter `S: PageSize` is the explicit argument `S_SIZE` (= `S::SIZE`).", "-/",
              "import X86Model.Base.Rust", "", "set_option linter.unusedVariables false", "", "namespace X86.Generated.Src", "open X86", ""]
     defs = {}
+    failed = dict(missing)   # lean name -> reason (outside the subset, or calls a function that is)
     for tg, ps, rty, full, body in parsed:
         em = Emit(tg, ctx)
         em.mut_self, em.ret_ty = tg.mut_self, rty
@@ -1774,13 +1780,24 @@ def generate(repo, outdir):
         try:
             stmts = P(tokenize(body)).block()
             term = em.block(stmts, env, None)
-        except ValueError as exn:
-            raise ValueError(f"{tg.file}: {tg.impl or ''} fn {tg.fn}: {exn}") from None
+        except (ValueError, KeyError, IndexError) as exn:
+            failed[tg.lean] = f"{tg.file}: {tg.impl or ''} fn {tg.fn}: {exn}"
+            continue
         head = f"`{tg.impl + ' :: ' if tg.impl else ''}{tg.fn}` ({tg.file})"
         text = [f"/-- {head} -/",
                 f"def {tg.lean} (cfg : Cfg) " + " ".join(binders) + f" : R ({full.lean()}) :=",
                 "  " + term, ""]
         defs[tg.lean] = (text, em.deps)
+    # a function that calls an untranslated one is untranslated too
+    changed = True
+    while changed:
+        changed = False
+        for k in list(defs):
+            bad = [d for d in defs[k][1] if d in failed]
+            if bad:
+                failed[k] = f"calls {bad[0]}, which could not be translated"
+                del defs[k]
+                changed = True
     # callees first (the source has no recursion among the translated functions; a cycle raises)
     done, order = set(), []
 
@@ -1795,16 +1812,21 @@ def generate(repo, outdir):
         order.append(key)
 
     for tg, *_ in parsed:
-        visit(tg.lean, [])
+        if tg.lean in defs:
+            visit(tg.lean, [])
     for key in order:
         lines += defs[key][0]
     lines += ["/-- Unfold every translated function (used by the tie proofs, `Properties/SrcTie.lean`). -/",
               "macro \"src_unfold\" : tactic => `(tactic| simp only [" + ", ".join(order) + "] at *)", "",
               "/-- Names of the translated functions (evidence). -/",
               "def translated : List String := [" + ", ".join('"' + k + '"' for k in order) + "]", "",
+              "/-- Functions of the target list that are outside the translator's subset in the current source. -/",
+              "def untranslated : List String := [" + ", ".join('"' + k + '"' for k in sorted(failed)) + "]", "",
               "end X86.Generated.Src", ""]
     path = os.path.join(outdir, "SrcFns.lean")
     write_if_changed(path, "\n".join(lines))
+    for k in sorted(failed):
+        print(f"gen_fns: UNTRANSLATED {k}: {failed[k]}")
     return [path]
 
 
